@@ -62,10 +62,10 @@ theorem C13.hazard_sources [StrNorm] (op : BinOp) (a b : Val) (h : Hazard) (hh :
 
 example : @evalBin StrNorm.plain .pow (.rat (-1)) (.rat (1/2)) = .error (.hazard .powComplex) := by decide +kernel
 
-/-- The only hazard of `Constant.__init__` is the UTF-8 encoding of a lone surrogate in a string initializer. -/
-theorem C13.const_hazard (ty : CTy) (v : Val) (h : Hazard) (hh : constCheck ty v = .error (.hazard h)) :
-    h = .surrogateEncode ∧ ∃ cs, v = .str cs ∧ cs.any isSurrogate = true := by
-  have generic : ∀ (r : Ex.R Val), (∀ k, r ≠ .error (.hazard k)) → r ≠ .error (.hazard h) := fun r hr => hr h
+/-- `Constant.__init__` reaches no hazardous operation: a string initializer is encoded with `errors="surrogatepass"`, so a
+    lone surrogate is three bytes - not one ASCII character - and the constant is rejected as an invalid definition. -/
+theorem C13.const_hazard (ty : CTy) (v : Val) (h : Hazard) : constCheck ty v ≠ .error (.hazard h) := by
+  intro hh
   cases v with
   | set es =>
     simp only [constCheck] at hh
@@ -85,25 +85,16 @@ theorem C13.const_hazard (ty : CTy) (v : Val) (h : Hazard) (hh : constCheck ty v
       | bool => simp [constCheck, hw, inval] at hh
       | other => simp [constCheck, hw, inval] at hh
       | float n m => simp [constCheck, hw, inval] at hh
+      | int n m => simp [constCheck, hw, inval] at hh
       | uint n m =>
         simp only [constCheck, hw, Bool.not_true, Bool.false_eq_true, ↓reduceIte, inval] at hh
-        by_cases hs : cs.any isSurrogate = true
-        · simp only [hs, ↓reduceIte, Except.error.injEq, Err.hazard.injEq] at hh
-          exact ⟨hh.symm, cs, rfl, hs⟩
-        · simp only [hs, Bool.false_eq_true, ↓reduceIte] at hh
-          split at hh
+        split at hh
+        · simp at hh
+        · split at hh
           · simp at hh
-          · split at hh
-            · simp at hh
-            · split at hh <;> simp at hh
-      | int n m =>
-        simp only [constCheck, hw, Bool.not_true, Bool.false_eq_true, ↓reduceIte, inval] at hh
-        by_cases hs : cs.any isSurrogate = true
-        · simp only [hs, ↓reduceIte, Except.error.injEq, Err.hazard.injEq] at hh
-          exact ⟨hh.symm, cs, rfl, hs⟩
-        · simp [hs] at hh
+          · split at hh <;> simp at hh
 
-example : constCheck (.uint 8 .saturated) (.str [0xD800]) = .error (.hazard .surrogateEncode) := by decide +kernel
+example : constCheck (.uint 8 .saturated) (.str [0xD800]) = .error (.invalid .constant) := by decide +kernel
 
 /-- Every file name under a namespace directory either has the shape `[port.]name.major.minor.ext` with integer
     fields, or is a `FileNameFormatError` (an `InvalidDefinitionError` carrying the path). -/
